@@ -141,7 +141,13 @@ type worker struct {
 type pool struct {
 	exe     string
 	race    bool // exe is built with the race detector
-	dir     string
+	// noWarm: a worker died of a fatal error while warming up; workers are
+	// started without the warm-up and the warm-up layer is evaluated as the
+	// first job, so that the death is charged to a call. startErr is what the
+	// first worker died of.
+	noWarm   bool
+	startErr error
+	dir      string
 	names   []string
 	skipped []string
 	mu      sync.Mutex
@@ -170,6 +176,10 @@ func newPoolOf(exe string, race bool) (*pool, error) {
 	p := &pool{exe: exe, race: race, dir: dir, live: map[*worker]struct{}{}}
 	// The first worker tells the scanner set.
 	w, err := p.spawn()
+	if err != nil && strings.Contains(err.Error(), "did not start: ") && !strings.HasSuffix(err.Error(), "did not start: -") {
+		p.noWarm, p.startErr = true, err
+		w, err = p.spawn()
+	}
 	if err != nil {
 		p.close()
 		return nil, err
@@ -181,6 +191,9 @@ func newPoolOf(exe string, race bool) (*pool, error) {
 func (p *pool) spawn() (*worker, error) {
 	cmd := exec.Command(p.exe)
 	cmd.Env = append(os.Environ(), envWorker+"=1", envWorkerDir+"="+p.dir, "TMPDIR="+p.dir, "GOMAXPROCS=1", "GOTRACEBACK=single")
+	if p.noWarm {
+		cmd.Env = append(cmd.Env, envWorkerNoWarm+"=1")
+	}
 	if p.race {
 		// A detected race ends the worker at once (exit code 66); the report on
 		// stderr names the two accesses.
@@ -814,6 +827,21 @@ func (h *harness) searchJobs() []job {
 			return g
 		}})
 	}
+	// 6. field sweeps: one word of a well-formed binary file at an extreme
+	// value; the quick tier samples the combinations (a different sample for
+	// every seed), the thorough tier runs many more
+	{
+		const combos = 5 * 10 * 80 * 2 * 3
+		n := h.cfg.N(260, 6000)
+		start := int(h.cfg.Seed%97) * 263
+		for i := 0; i < n; i++ {
+			k := (start + i*(combos/n+1)) % combos
+			if h.cfg.Thorough() {
+				k = (start + i*5) % combos
+			}
+			jobs = append(jobs, job{func(r *hx.Rand) genLayer { return genFieldSweepLayer(r, k) }})
+		}
+	}
 	return jobs
 }
 
@@ -844,7 +872,16 @@ func (h *harness) searchStream() {
 	h.r.Notes["alloc_bound"] = fmt.Sprintf("a call (Layer.Init or one Scan) may allocate at most %d + %d * len(layer) bytes (runtime.MemStats.TotalAlloc delta, after a collection); "+
 		"the worker's address space is limited to %d bytes", uint64(allocBoundA), allocBoundB, uint64(workerASLimit))
 	jobs := h.searchJobs()
+	if p.noWarm {
+		jobs = append([]job{{func(*hx.Rand) genLayer {
+			return genLayer{blob: warmupLayer(), recipe: "warm-up layer (one well-formed file of every kind)", kinds: []string{"warm-up"}, muts: []string{"none"}, concurrent: true}
+		}}}, jobs...)
+	}
 	s.runJobs(jobs, h.rnd.Fork())
+	if p.noWarm && h.unclassified.Load() == 0 {
+		// the death of the first worker was not met again
+		h.fail("", "crash scanner=(any; a worker died while running every scanner on its warm-up layer, not reproduced when the layer was served as a job) recipe=warm-up layer="+h.dumpWitness("layer", warmupLayer())+" msg="+oneLine(p.startErr.Error(), 300))
+	}
 	if err := p.failed(); err != nil {
 		h.r.Notes["search_error"] = err.Error()
 		h.fail("", "search-half-worker-could-not-be-started "+oneLine(err.Error(), 300))
